@@ -56,41 +56,57 @@ Proof.
   destruct (step nt T s a); try discriminate. apply IH. exact H.
 Qed.
 
+Lemma R_apply nt T s acts s1 : reachable nt T s -> apply_all nt T s acts = Some s1 -> reachable nt T s1.
+Proof. intros Hr H. eapply reachable_run; [exact Hr|]. apply apply_all_run. exact H. Qed.
+Lemma R_settle nt T f s1 s2 : reachable nt T s1 -> settle f nt T s1 = SOk s2 -> reachable nt T s2.
+Proof. intros Hr H. destruct (settle_run _ _ _ _ _ H) as [[sch Hrun] _]. eapply reachable_run; eassumption. Qed.
+Lemma R_step nt T s a s' : reachable nt T s -> step nt T s a = Ok s' -> reachable nt T s'.
+Proof. intros Hr H. eapply reachable_run with (sch := [a]); [exact Hr|]. cbn. rewrite H. reflexivity. Qed.
+
+Lemma R_post nt T sg s2 s5 b : reachable nt T s2 -> post_signal nt T sg s2 = Some (s5, b) -> reachable nt T s5.
+Proof.
+  intros Hr. unfold post_signal. destruct sg; [|intros H; inversion H; subst; exact Hr].
+  destruct (mn s2); try (intros H; inversion H; subst; exact Hr).
+  destruct (src s2); try (intros H; inversion H; subst; exact Hr).
+  destruct (step nt T s2 SrcReturnNil) as [s3| |] eqn:Es; try discriminate.
+  destruct (settle fuel0 nt T s3) as [s4| |] eqn:E4; try discriminate.
+  intros H; inversion H; subst. eapply R_settle; [|exact E4]. eapply R_step; eassumption.
+Qed.
+
 (* one scenario step keeps the model in a reachable state *)
 Theorem play1_reachable nt T p i :
   reachable nt T (st p) -> reachable nt T (st (fst (fst (play1 nt T p i)))).
 Proof.
   intros Hr. unfold play1.
-  destruct (stopped p || bad p); [exact Hr|].
-  (* every branch is either [skip] (state unchanged) or [attempt acts ...] *)
-  assert (Att : forall acts c used rel,
-            reachable nt T (st (fst (fst (
-              match apply_all nt T (st p) acts with
-              | None => (p, CSkip, snapshot (st p))
-              | Some s1 =>
-                  match settle fuel0 nt T s1 with
-                  | SOk s2 =>
-                      if ambiguous_blocked s2 || ambiguous_discard nt (st p) s2 rel || order_sensitive nt T s1 s2
-                      then ({| st := st p; next_id := next_id p; stopped := true; bad := false |}, CSkip, snapshot (st p))
-                      else ({| st := s2; next_id := (next_id p + used)%Z; stopped := false; bad := false |}, c, snapshot s2)
-                  | _ => ({| st := st p; next_id := next_id p; stopped := true; bad := true |}, CSkip, snapshot (st p))
-                  end
-              end))))).
-  { intros acts c used rel. destruct (apply_all nt T (st p) acts) as [s1|] eqn:Ea; [|exact Hr].
-    destruct (settle fuel0 nt T s1) as [s2| |] eqn:Es; try exact Hr.
-    destruct (ambiguous_blocked s2 || ambiguous_discard nt (st p) s2 rel || order_sensitive nt T s1 s2); [exact Hr|]. cbn.
-    destruct (settle_run _ _ _ _ _ Es) as [[sch Hrun] _].
-    eapply reachable_run; [|exact Hrun]. eapply reachable_run; [exact Hr|]. apply apply_all_run. exact Ea. }
-  destruct i as [|n k okind arg|n k okind arg| | |].
-  - apply Att.
-  - destruct (length nt) eqn:El; [exact Hr|].
-    destruct (at_gate (node (st p) (n mod S n0))) eqn:Eg; [exact Hr|].
-    destruct (find_worker _ _ 0); [apply Att|exact Hr].
-  - destruct (length nt) eqn:El; [exact Hr|].
-    destruct (sort_items (inflight (node (st p) (n mod S n0)))) eqn:Eg; [exact Hr|]. apply Att.
-  - apply Att.
-  - apply Att.
-  - destruct (src (st p)); try exact Hr. destruct (mn (st p)); try exact Hr. apply Att.
+  repeat match goal with
+         | |- reachable _ _ (st (fst (fst (if ?b then _ else _)))) => destruct b eqn:?
+         | |- reachable _ _ (st (fst (fst (match ?x with _ => _ end)))) => destruct x eqn:?
+         | |- reachable _ _ (st (fst (fst (let _ := _ in _)))) => cbv zeta
+         end; cbn [fst snd st]; try exact Hr;
+  repeat match goal with
+         | H : apply_all nt T (st p) _ = Some ?s1 |- _ =>
+             lazymatch goal with
+             | _ : reachable nt T s1 |- _ => fail
+             | _ => pose proof (R_apply nt T (st p) _ s1 Hr H)
+             end
+         | R : reachable nt T ?s1, H : settle _ nt T ?s1 = SOk ?s2 |- _ =>
+             lazymatch goal with
+             | _ : reachable nt T s2 |- _ => fail
+             | _ => pose proof (R_settle nt T _ s1 s2 R H)
+             end
+         | R : reachable nt T ?s1, H : step nt T ?s1 _ = Ok ?s2 |- _ =>
+             lazymatch goal with
+             | _ : reachable nt T s2 |- _ => fail
+             | _ => pose proof (R_step nt T s1 _ s2 R H)
+             end
+         | R : reachable nt T ?s2, H : post_signal nt T _ ?s2 = Some (?s5, _) |- _ =>
+             lazymatch goal with
+             | _ : reachable nt T s5 |- _ => fail
+             | _ => pose proof (R_post nt T _ s2 s5 _ R H)
+             end
+         | H : Some _ = Some _ |- _ => inversion H; subst; clear H
+         | H : (_, _) = (_, _) |- _ => inversion H; subst; clear H
+         end; try assumption; try discriminate.
 Qed.
 
 (* ... and leaves it quiescent whenever it moved *)
@@ -109,7 +125,7 @@ Proof.
   unfold play_from_init.
   destruct (settle fuel0 nt T (init nt)) as [s0| |] eqn:Es; try (exists []; reflexivity).
   destruct (settle_run _ _ _ _ _ Es) as [[sch Hrun] _].
-  pose proof (play_states_reachable nt T l {| st := s0; next_id := 1000%Z; stopped := false; bad := false |}) as H.
+  pose proof (play_states_reachable nt T l {| st := s0; next_id := 1000%Z; stopped := false; bad := false; sigp := false |}) as H.
   cbn in H. specialize (H (ex_intro _ sch Hrun)).
   destruct (play nt T _ l) as [p out]. exact H.
 Qed.
